@@ -207,6 +207,7 @@ type Sim struct {
 	curCall   *APICall
 	CapHit    bool
 	Armed     map[string]bool
+	APILatency time.Duration
 	lastReleased *Task
 	pendingGrace map[*Task]*int64
 }
@@ -493,6 +494,12 @@ func (s *Sim) enabledActions() []Action {
 		}
 		t := t
 		acts = append(acts, Action{Kind: "task", Key: t.id + " @" + t.kind + " " + t.desc, Stamp: t.stamp, Weight: 10, Run: func() {
+			if t.kind == "api.resp" && s.APILatency > 0 {
+				// every API round trip costs virtual time, so that event-driven
+				// hot loops are bounded by time as they are in reality.
+				time.Sleep(s.APILatency)
+				synctest.Wait()
+			}
 			s.release(t, resumeMsg{})
 		}})
 	}
